@@ -79,7 +79,7 @@ PROPS = {
     'C10': {
         'modules': ['ext', 'util', 'body', 'client::call', 'client::flow', 'lemmas'],
         # "the response body was close-delimited" is decided by the framing rules: the verdict rests on these C06 obligations
-        'depends_on': ['C06.reader_set_by_the_rules', 'C06.mode_table', 'C06.into_body'],
+        'depends_on': ['C06.reader_set_by_the_rules', 'C06.mode_table', 'C06/C09.into_body'],
         'explanation': 'append-or-frame postcondition on every function of flow.rs: Flow::new records Http10 / ClientConnectionClose exactly, try_read_100 appends Not100Continue exactly on a non-100 decision, try_response appends ServerConnectionClose iff the returned response has connection: close, RecvResponse::proceed appends CloseDelimitedBody iff a close-delimited body follows, everything else leaves the list unchanged; must_close_connection == list non-empty and close_reason explains list[0], identically in Redirect and Cleanup; capacity 5 proved sufficient from the per-state bounds; lemma_close_trace composes them.',
         'assumptions': [VERUS, HTTP, 'HeaderIterExt::has = exists field with that name (case-insensitive) and exactly that value (N9 stub headers_has)', LIT, PRE],
         'bounded': ['headers_has against http::HeaderMap: native run'],
@@ -113,6 +113,8 @@ PROPS = {
         'assumptions': [VERUS, HTTP],
     },
     'C16': {
+        # every caller-added header reaches the wire THROUGH the head writer: C16 rests on C02's obligations in the functions of its chain
+        'depends_on': ['C02'],
         'modules': ['client::amended', 'client::call', 'client::flow'],
         'explanation': 'Flow<Prepare>::header appends to the added list (assumed contract of set_header, generic TryFrom signature); as_new_flow yields an empty added list and an unset list that affects only the original headers (spec eff_headers = added ++ (original minus unset)); the proved head writer emits eff_headers in order. The function that decides the property on the wire - the iterator in AmendedRequest::headers() - is outside Verus; its assumed contract is checked by the bounded native run.',
         'assumptions': [VERUS, HTTP, ITER, WRITER_MODEL, FMT],
